@@ -81,6 +81,24 @@ def generate(loader):
         quat_ok = True
     except TraceError:
         raise
+    # --- parameters held as a plain tensor (has_parameters() False): setters store the value itself, getters return the
+    #     stored parameters themselves (no tanh/exp re-parameterisation on either side)
+    fixed_ok = []
+    for D in (2, 3):
+        for cls, getter, setter, n in ((lin.AnisotropicScaling, "scales", "scales_", D), (lin.IsotropicScaling, "scales", "scales_", 1),
+                                       (lin.Shearing, "angles", "angles_", 1 if D == 2 else D), (lin.EulerRotation, "angles", "angles_", 1 if D == 2 else 3)):
+            t = lininv.inst(cls, D, lininv.vec("p", n), False, order=None)
+            seen = []
+            t.data_ = lambda arg, seen=seen, t=t: seen.append(arg) or t
+            v = lininv.vec("v", n)
+            getattr(t, setter)(v)
+            if len(seen) != 1 or not _same(seen[0], v):
+                raise TraceError(f"{cls.__name__}.{setter}(v) with fixed (non-Parameter) parameters does not store v itself (D={D})")
+            if not _same(getattr(t, getter)(), lininv.vec("p", n)):
+                raise TraceError(f"{cls.__name__}.{getter}() with fixed (non-Parameter) parameters does not return the stored parameters (D={D})")
+            if D == 3:
+                fixed_ok.append(cls.__name__)
+
     def o2coq(o):
         return "None" if o is None else f"(Some ({AX[o[0]]}, {AX[o[1]]}, {AX[o[2]]}))"
     out = ["(* which (D, order) pairs the structural checks of tools/tr_units/linparams.py covered on this run *)",
@@ -88,5 +106,7 @@ def generate(loader):
            "  [" + "; ".join(f"({D}%nat, {o2coq(o)})" for D, o in checked_tensor) + "].",
            "Definition gen_cls_matrix_setter_uses_order : list (nat * option order) :=",
            "  [" + "; ".join(f"({D}%nat, {o2coq(o)})" for D, o in checked_setter) + "].",
-           f"Definition gen_cls_quaternion_setter_ok : bool := {'true' if quat_ok else 'false'}.", ""]
+           f"Definition gen_cls_quaternion_setter_ok : bool := {'true' if quat_ok else 'false'}.",
+           "(* classes whose setter/getter pair is the identity on fixed (non-Parameter) parameters, D = 2 and 3 *)",
+           "Definition gen_cls_fixed_params_identity : list string := [" + "; ".join('"%s"%%string' % c for c in fixed_ok) + "].", ""]
     return "\n".join(out)
